@@ -21,7 +21,7 @@ FSTART = getattr(T, 'FSTRING_START', -1)
 FEND = getattr(T, 'FSTRING_END', -2)
 
 REPL_INLINE = ['', ' ', '  ', '\\\n ', ' # c\n', '\n', '\n  ', ' \\\n', '# é\n ']
-# small sources enumerated completely in every tier (shapes the corpus sample may miss: decorators, implicit string
+# small sources sampled densely in quick and enumerated completely in thorough (shapes the corpus sample may miss: decorators, implicit string
 # concatenation, non-ASCII lines, one-line compound statements, slices, patterns)
 EXTRA_SOURCES = [
     "@deco(a, b)\n@ other\ndef f(x):\n    return x\n@ d1\n@d2 (x)\nclass D: pass\n",
